@@ -143,6 +143,14 @@ impl SegmentLogWriter {
                     format!("Failed to log to file: {}. {error}", self.file_path)
                 })
                 .map_err(|_| IggyError::CannotWriteToFile)?;
+            // A tokio file completes the write in the background; flush() waits for it, so that the
+            // bytes are in the file before its published size grows and the send is acknowledged.
+            file.flush()
+                .await
+                .with_error_context(|error| {
+                    format!("Failed to flush log file: {}. {error}", self.file_path)
+                })
+                .map_err(|_| IggyError::CannotWriteToFile)?;
 
             Ok(())
         } else {
